@@ -22,8 +22,8 @@ Proof.
   intro H. unfold level_reports.
   assert (G : forall s, flat_map (fun l => match wl l with
                                           | WOk => []
-                                          | WEio => [mkWR (report_due m (lag pos l) it) 1 0]
-                                          | WErr => [mkWR (report_due m (lag pos l) it) 0 1]
+                                          | WEio => [mkWR (report_due m (lag pos l) it) 1 0 pos]
+                                          | WErr => [mkWR (report_due m (lag pos l) it) 0 1 pos]
                                           end) (seq s nl) = []).
   { induction nl as [|n IH]; intro s; simpl; [reflexivity|]. rewrite H. apply IH. }
   apply G.
@@ -53,7 +53,7 @@ Section W.
     (forall p l, wf p l = WOk) ->
     forall stripes stop it nfail c par ne ns ni,
       let r := sync_loop_w hashf bs nlev o now fs faults wf m lag stripes stop it [] nfail c par ne ns ni in
-      w_run r = sync_loop hashf bs nlev o now fs faults stripes stop c par ne ns ni /\ w_lost r = [] /\ w_nfail r = nfail.
+      w_run r = sync_loop hashf bs nlev o now fs faults stripes stop c par ne ns ni /\ w_lost r = [] /\ w_fpos r = nfail.
   Proof.
     intro Hok. induction stripes as [|pos rest IH]; intros stop it nfail c par ne ns ni; cbn [sync_loop_w sync_loop]; [repeat split|].
     destruct (negb (stripe_enabled o _)); [apply IH|].
@@ -61,9 +61,9 @@ Section W.
       (cbv zeta;
        destruct (so_bail (sync_stripe hashf bs nlev o now ni c (map (fun lv => nth pos lv PNone) par) fs (faults pos) pos)); [repeat split|];
        destruct (so_write (sync_stripe hashf bs nlev o now ni c (map (fun lv => nth pos lv PNone) par) fs (faults pos) pos)) as [v|];
-       [ rewrite level_reports_ok by (auto); cbn [Nat.add Nat.eqb negb app length filter sum_eio sum_err fold_right Nat.ltb Nat.leb andb];
-         rewrite write_levels_ok by auto; rewrite Nat.add_0_r; apply IH
-       | cbn [Nat.add Nat.eqb negb app length filter sum_eio sum_err fold_right Nat.ltb Nat.leb andb]; rewrite Nat.add_0_r; apply IH ]).
+       [ rewrite level_reports_ok by (auto); cbn [Nat.add Nat.eqb negb app length map filter mark_bad_all fold_left sum_eio sum_err fold_right Nat.ltb Nat.leb andb];
+         rewrite write_levels_ok by auto; rewrite app_nil_r; apply IH
+       | cbn [Nat.add Nat.eqb negb app length map filter mark_bad_all fold_left sum_eio sum_err fold_right Nat.ltb Nat.leb andb]; rewrite app_nil_r; apply IH ]).
   Qed.
 
   (* ---------------------------------------------------------------------------------------------------------------- *)
@@ -144,9 +144,6 @@ Section W.
   (* ---------------------------------------------------------------------------------------------------------------- *)
   (* read_error_safe                                                                                                   *)
   (* ---------------------------------------------------------------------------------------------------------------- *)
-  Definition mark_bad (oi : option info) : option info :=
-    Some (match oi with Some i => mkInfo (i_time i) true (i_rehash i) (i_justsynced i) | None => mkInfo 0 true false false end).
-
   Theorem read_error_safe o now iob c par fs faults pos j f i b :
     j < length (c_disks c) -> slot_of c pos j = SFile f i b ->
     nth j faults None = Some RdIoCont \/ nth j faults None = Some RdErrCont ->
@@ -241,7 +238,7 @@ Section W.
   Proof. induction 1; simpl; [constructor|]. destruct (p x); [constructor|]; assumption. Qed.
 
   Theorem writer_accounting o now fs faults wf m lag : forall stripes stop it q nfail c par ne ns ni,
-    acct_ok q nfail ne ns ni ->
+    acct_ok q (length nfail) ne ns ni ->
     let r := sync_loop_w hashf bs nlev o now fs faults wf m lag stripes stop it q nfail c par ne ns ni in
     acct_ok (w_lost r) (w_nfail r) (ro_nerr (w_run r)) (ro_nsilent (w_run r)) (ro_nio (w_run r)).
   Proof.
@@ -252,7 +249,7 @@ Section W.
       apply Nat.ltb_ge in E1. apply Nat.ltb_ge in E2.
       assert (Eq : q = []) by (apply sums_zero_nil; [exact HF | lia | lia]).
       rewrite <- (HL E). rewrite Eq. reflexivity. }
-    induction stripes as [|pos rest IH]; intros stop it q nfail c par ne ns ni HK; cbn [sync_loop_w]; cbv zeta; [apply Base; exact HK|].
+    induction stripes as [|pos rest IH]; intros stop it q nfail c par ne ns ni HK; cbn [sync_loop_w]; cbv zeta; unfold w_nfail; [apply Base; exact HK|].
     destruct (negb (stripe_enabled o _)); [apply IH; exact HK|].
     set (r := sync_stripe hashf bs nlev o now ni c (map (fun lv => nth pos lv PNone) par) fs (faults pos) pos).
     destruct stop as [[|k]|]; [apply Base; exact HK | |];
@@ -260,13 +257,15 @@ Section W.
        destruct (so_bail r); [simpl; split; [exact HF | intro E; apply HL; lia]|];
        set (reps := match so_write r with Some _ => level_reports m lag it pos (wf pos) (length par) | None => [] end);
        set (qa := q ++ reps);
+       set (fp' := nfail ++ map wr_pos reps);
+       assert (HLn : length fp' = length nfail + length reps) by (unfold fp'; rewrite app_length, map_length; reflexivity);
        set (q2 := filter (fun w => negb (is_due it w)) qa);
        set (seen := filter (is_due it) qa);
        assert (HFr : Forall (fun w => rep_nonzero w = true) reps)
          by (unfold reps; destruct (so_write r); [apply level_reports_nonzero | constructor]);
        assert (HFa : Forall (fun w => rep_nonzero w = true) qa) by (apply Forall_app; split; assumption);
-       assert (HLa : ne + so_nerr r + (ns + so_nsilent r) + (ni + so_nio r) = 0 -> length qa = nfail + length reps)
-         by (intro E; unfold qa; rewrite app_length, HL by lia; reflexivity);
+       assert (HLa : ne + so_nerr r + (ns + so_nsilent r) + (ni + so_nio r) = 0 -> length qa = length fp')
+         by (intro E; unfold qa; rewrite app_length, HL, HLn by lia; reflexivity);
        assert (HF2 : Forall (fun w => rep_nonzero w = true) q2) by (apply Forall_filter; exact HFa);
        assert (HFs : Forall (fun w => rep_nonzero w = true) seen) by (apply Forall_filter; exact HFa);
        destruct (0 <? sum_eio seen) eqn:Ece; cbn [andb];
@@ -357,20 +356,20 @@ End W.
 (* the exit status: what IS true of the writer accounting                                                            *)
 (* ---------------------------------------------------------------------------------------------------------------- *)
 Theorem write_error_exit_partial hashf bs nlev o now fs faults wf m lag stripes stop c par :
-  let r := sync_loop_w hashf bs nlev o now fs faults wf m lag stripes stop 0 [] 0 c par 0 0 0 in
+  let r := sync_loop_w hashf bs nlev o now fs faults wf m lag stripes stop 0 [] [] c par 0 0 0 in
   length (w_lost r) < w_nfail r -> run_failing (w_run r) = true.
 Proof.
   intros r H.
-  destruct (writer_accounting hashf bs nlev o now fs faults wf m lag stripes stop 0 [] 0 c par 0 0 0) as [_ K].
+  destruct (writer_accounting hashf bs nlev o now fs faults wf m lag stripes stop 0 [] [] c par 0 0 0) as [_ K].
   { split; [constructor | reflexivity]. }
-  fold r in K. unfold run_failing. destruct (ro_nerr (w_run r) + ro_nsilent (w_run r) + ro_nio (w_run r) =? 0) eqn:E; [|reflexivity].
+  fold r in K. unfold w_nfail in *. unfold run_failing. destruct (ro_nerr (w_run r) + ro_nsilent (w_run r) + ro_nio (w_run r) =? 0) eqn:E; [|reflexivity].
   apply Nat.eqb_eq in E. specialize (K E). lia.
 Qed.
 
 (* in single-thread mode a failed parity write always gives a failing exit status (repair 55c30f5 of
    F-C08-mono-writer-errors-lost; on the tree before it this statement was refuted by `wrun Mono 3`) *)
 Theorem write_error_exit_mono hashf bs nlev o now fs faults wf lag stripes stop c par :
-  let r := sync_loop_w hashf bs nlev o now fs faults wf Mono lag stripes stop 0 [] 0 c par 0 0 0 in
+  let r := sync_loop_w hashf bs nlev o now fs faults wf Mono lag stripes stop 0 [] [] c par 0 0 0 in
   0 < w_nfail r -> run_failing (w_run r) = true.
 Proof.
   intros r H. apply write_error_exit_partial. fold r.
@@ -381,13 +380,135 @@ Qed.
    failing, in every mode and for every writer schedule (half of the full-strength statement; on the tree before the repair
    it was refuted by `wrun (Threaded 3) 7`) *)
 Theorem write_error_exit_safe hashf bs nlev o now fs faults wf m lag stripes stop c par :
-  let r := sync_loop_w hashf bs nlev o now fs faults wf m lag stripes stop 0 [] 0 c par 0 0 0 in
+  let r := sync_loop_w hashf bs nlev o now fs faults wf m lag stripes stop 0 [] [] c par 0 0 0 in
   0 < w_nfail r -> run_failing (w_run r) = true.
 Proof.
   intros r H. destruct (ro_bailed (w_run r)) eqn:Eb.
-  - apply (bailed_failing hashf bs nlev o now fs faults wf m lag stripes stop 0 [] 0 c par 0 0 0). exact Eb.
+  - apply (bailed_failing hashf bs nlev o now fs faults wf m lag stripes stop 0 [] [] c par 0 0 0). exact Eb.
   - apply write_error_exit_partial.
-    rewrite (not_bailed_nothing_lost hashf bs nlev o now fs faults wf m lag stripes stop 0 [] 0 c par 0 0 0 Eb). exact H.
+    rewrite (not_bailed_nothing_lost hashf bs nlev o now fs faults wf m lag stripes stop 0 [] [] c par 0 0 0 Eb). exact H.
+Qed.
+
+(* ---------------------------------------------------------------------------------------------------------------- *)
+(* write_error_safe: the stripe of every failed parity write ends marked bad (repair 0ecd44a)                        *)
+(* ---------------------------------------------------------------------------------------------------------------- *)
+Definition bad_at (c : content) (p : nat) : Prop := exists i, nth p (c_info c) None = Some i /\ i_bad i = true.
+
+Lemma mark_bad_is_bad oi : exists i, mark_bad oi = Some i /\ i_bad i = true.
+Proof. unfold mark_bad. destruct oi; eexists; split; reflexivity. Qed.
+Lemma mark_bad_at_same c p : bad_at (mark_bad_at c p) p.
+Proof. unfold bad_at, mark_bad_at. cbn [c_info]. rewrite nth_set_ext_same. apply mark_bad_is_bad. Qed.
+Lemma mark_bad_at_keeps c p' p : bad_at c p -> bad_at (mark_bad_at c p') p.
+Proof.
+  intro H. destruct (Nat.eq_dec p p') as [->|Hne]; [apply mark_bad_at_same|].
+  unfold bad_at, mark_bad_at in *. cbn [c_info]. rewrite nth_set_ext_other by exact Hne. exact H.
+Qed.
+Lemma mark_bad_all_keeps ps : forall c p, bad_at c p -> bad_at (mark_bad_all c ps) p.
+Proof. unfold mark_bad_all. induction ps as [|x t IH]; intros c p H; simpl; [exact H|]. apply IH. apply mark_bad_at_keeps. exact H. Qed.
+Lemma mark_bad_all_marks ps : forall c p, In p ps -> bad_at (mark_bad_all c ps) p.
+Proof.
+  unfold mark_bad_all. induction ps as [|x t IH]; intros c p H; [destruct H|]. simpl. destruct H as [->|H].
+  - apply (mark_bad_all_keeps t). apply mark_bad_at_same.
+  - apply IH. exact H.
+Qed.
+(* the marks touch nothing else: the block maps are unchanged, and so is every info word outside the listed stripes *)
+Lemma mark_bad_all_frame ps : forall c,
+  c_disks (mark_bad_all c ps) = c_disks c /\ c_blockmax (mark_bad_all c ps) = c_blockmax c /\
+  forall p, ~ In p ps -> nth p (c_info (mark_bad_all c ps)) None = nth p (c_info c) None.
+Proof.
+  unfold mark_bad_all. induction ps as [|x t IH]; intro c; simpl; [repeat split|].
+  destruct (IH (mark_bad_at c x)) as (D & B & I). split; [rewrite D; reflexivity|]. split; [rewrite B; reflexivity|].
+  intros p Hp. rewrite I by (intro H; apply Hp; right; exact H).
+  unfold mark_bad_at. cbn [c_info]. apply nth_set_ext_other. intro E. apply Hp. left. symmetry. exact E.
+Qed.
+
+Lemma bad_not_healthy c p : bad_at c p -> recorded_healthy c p = false.
+Proof. intros [i [E B]]. unfold recorded_healthy. rewrite E, B. simpl. apply andb_false_r. Qed.
+
+Lemma level_reports_pos m lag it pos wl nl w : In w (level_reports m lag it pos wl nl) -> wr_pos w = pos.
+Proof.
+  unfold level_reports. intro H. apply in_flat_map in H. destruct H as [l [_ H]].
+  destruct (wl l); [destruct H | destruct H as [<-|[]]; reflexivity | destruct H as [<-|[]]; reflexivity].
+Qed.
+
+Section Safe.
+  Variable hashf : bid -> N -> hval.
+  Variable bs : N.
+  Variable nlev : nat.
+
+  (* every failed write so far is still waiting in the queue, or its stripe is already marked *)
+  Definition marks_ok (q : list wrep) (fp : list nat) (c : content) : Prop :=
+    forall p, In p fp -> In p (map wr_pos q) \/ bad_at c p.
+
+  Lemma stripe_keeps_bad o now iob c par fs faults pos p :
+    p <> pos -> bad_at c p -> bad_at (so_content (sync_stripe hashf bs nlev o now iob c par fs faults pos)) p.
+  Proof.
+    intros Hne [i [E B]]. destruct (sync_stripe_other_stripes hashf bs nlev o now iob c par fs faults pos) as [_ Fr].
+    destruct (Fr p Hne) as (_ & Ei & _). exists i. rewrite Ei. auto.
+  Qed.
+
+  Lemma in_map_filter_split (f : wrep -> bool) (l : list wrep) p :
+    In p (map wr_pos l) -> In p (map wr_pos (filter f l)) \/ In p (map wr_pos (filter (fun w => negb (f w)) l)).
+  Proof.
+    intro H. apply in_map_iff in H. destruct H as [w [E Hw]]. destruct (f w) eqn:Ef.
+    - left. apply in_map_iff. exists w. split; [exact E|]. apply filter_In. auto.
+    - right. apply in_map_iff. exists w. split; [exact E|]. apply filter_In. rewrite Ef. auto.
+  Qed.
+
+  Theorem failed_writes_marked o now fs faults wf m lag : forall stripes stop it q fp c par ne ns ni,
+    NoDup stripes -> (forall p, In p fp -> ~ In p stripes) -> marks_ok q fp c ->
+    let r := sync_loop_w hashf bs nlev o now fs faults wf m lag stripes stop it q fp c par ne ns ni in
+    forall p, In p (w_fpos r) -> bad_at (ro_content (w_run r)) p.
+  Proof.
+    assert (End : forall q fp c, marks_ok q fp c -> forall p, In p fp -> bad_at (mark_bad_all c (map wr_pos q)) p).
+    { intros q fp c H p Hp. destruct (H p Hp) as [Hq|Hb]; [apply mark_bad_all_marks; exact Hq | apply mark_bad_all_keeps; exact Hb]. }
+    induction stripes as [|pos rest IH]; intros stop it q fp c par ne ns ni ND Hfp HM; cbn [sync_loop_w]; cbv zeta.
+    - cbn [w_fpos w_run ro_content]. apply (End q fp c HM).
+    - inversion ND as [|? ? Hnin ND']. subst.
+      assert (Hfp' : forall p, In p fp -> ~ In p rest) by (intros p Hp H; apply (Hfp p Hp); right; exact H).
+      destruct (negb (stripe_enabled o _)); [apply IH; assumption|].
+      set (r := sync_stripe hashf bs nlev o now ni c (map (fun lv => nth pos lv PNone) par) fs (faults pos) pos).
+      (* after the stripe itself: the marks of the earlier stripes are kept *)
+      assert (HM1 : marks_ok q fp (so_content r)).
+      { intros p Hp. destruct (HM p Hp) as [Hq|Hb]; [left; exact Hq|]. right. apply stripe_keeps_bad; [|exact Hb].
+        intro E. subst p. apply (Hfp pos Hp). left. reflexivity. }
+      destruct stop as [[|k]|]; [cbn [w_fpos w_run ro_content]; apply (End q fp c HM) | |];
+        (destruct (so_bail r); [cbn [w_fpos w_run ro_content]; apply (End q fp (so_content r) HM1)|];
+         set (reps := match so_write r with Some _ => level_reports m lag it pos (wf pos) (length par) | None => [] end);
+         assert (Hrp : forall x, In x (map wr_pos reps) -> x = pos)
+           by (intros x Hx; apply in_map_iff in Hx; destruct Hx as [w [<- Hw]]; unfold reps in Hw; destruct (so_write r); [eapply level_reports_pos; exact Hw | destruct Hw]);
+         assert (HMa : marks_ok (q ++ reps) (fp ++ map wr_pos reps) (so_content r))
+           by (intros p Hp; apply in_app_or in Hp; destruct Hp as [Hp|Hp];
+               [ destruct (HM1 p Hp) as [Hq|Hb]; [left; rewrite map_app; apply in_or_app; left; exact Hq | right; exact Hb]
+               | left; rewrite map_app; apply in_or_app; right; exact Hp ]);
+         assert (Hfpa : forall p, In p (fp ++ map wr_pos reps) -> ~ In p rest)
+           by (intros p Hp; apply in_app_or in Hp; destruct Hp as [Hp|Hp]; [apply Hfp'; exact Hp | rewrite (Hrp p Hp); exact Hnin]);
+         destruct ((0 <? _) && _);
+         [ cbn [w_fpos w_run ro_content]; apply (End _ _ _ HMa)
+         | destruct (0 <? _);
+           [ cbn [w_fpos w_run ro_content]; apply (End _ _ _ HMa)
+           | apply IH; [exact ND' | exact Hfpa |];
+             intros p Hp; destruct (HMa p Hp) as [Hq|Hb];
+             [ destruct (in_map_filter_split (is_due it) (q ++ reps) p Hq) as [Hs|Hu];
+               [ right; apply mark_bad_all_marks; exact Hs | left; exact Hu ]
+             | right; apply mark_bad_all_keeps; exact Hb ] ] ]).
+  Qed.
+End Safe.
+
+(* C08 for parity writes (after the repairs 55c30f5, 1304269, 0ecd44a): for every fault sequence, io mode and writer schedule,
+   (1) whenever a parity write failed the exit status is failing, (2) the stripe of every failed write is marked bad in the
+   final state, hence not recorded synced-and-healthy; the marks touch nothing else (mark_bad_all_frame) *)
+Theorem write_error_safe hashf bs nlev o now fs faults wf m lag stripes stop c par :
+  NoDup stripes ->
+  let r := sync_loop_w hashf bs nlev o now fs faults wf m lag stripes stop 0 [] [] c par 0 0 0 in
+  (0 < w_nfail r -> run_failing (w_run r) = true) /\
+  (forall p, In p (w_fpos r) -> bad_at (ro_content (w_run r)) p /\ recorded_healthy (ro_content (w_run r)) p = false).
+Proof.
+  intros ND r. split; [apply write_error_exit_safe|].
+  intros p Hp.
+  assert (B : bad_at (ro_content (w_run r)) p).
+  { apply (failed_writes_marked hashf bs nlev o now fs faults wf m lag stripes stop 0 [] [] c par 0 0 0 ND); [intros x [] | intros x [] | exact Hp]. }
+  split; [exact B | apply bad_not_healthy; exact B].
 Qed.
 
 (* ---------------------------------------------------------------------------------------------------------------- *)
